@@ -104,6 +104,11 @@ pub mod csc {
     pub fn findnz<T: FloatT>(A: &CscMatrix<T>) -> (Vec<usize>, Vec<usize>, Vec<T>) {
         A.findnz()
     }
+    /// `ShapedMatrix::{nrows, ncols, is_square}` (the trait is crate-private)
+    pub fn shape<T>(A: &CscMatrix<T>) -> (usize, usize, bool) {
+        use crate::algebra::ShapedMatrix;
+        (A.nrows(), A.ncols(), A.is_square())
+    }
 }
 
 /// step-level items of the interior point loop (C05/C06): the loop enums and the
